@@ -62,7 +62,7 @@ pub fn d_dump_units() {}
 #[cfg(not(kani))]
 pub fn m_replay_unit_calc() {
     use crate::compiler::OperationType;
-    let k: u8 = vany(); let x: f64 = vany(); let y: f64 = vany();
+    let k: u8 = vany(); let x: f64 = vany(); let y0: f64 = vany();
     vassume(k < 4);
     let mut calc = crate::SmartCalc::default();
     calc.set_decimal_seperator(".".to_string());
@@ -74,14 +74,18 @@ pub fn m_replay_unit_calc() {
     };
     let pairs = [("cm", "ft"), ("ft", "cm"), ("inch", "mm"), ("mm", "inch"), ("m", "km"), ("kg", "lb"), ("oz", "mg"), ("mb", "kb"), ("yard", "dm")];
     let op = match k { 0 => OperationType::Add, 1 => OperationType::Div, 2 => OperationType::Mul, _ => OperationType::Sub };
+    // the conversion is an uninterpreted function in the encoding: next to the solver's y, operands whose converted
+    // value is tiny or huge are tried as well (a ratio depends on the converted operand, whatever unit it was written in)
+    let ys = [y0, y0 * 1e-20, y0 * 1e20, 3e-17, -2e-19];
+    for y in ys.iter().copied() { if !y.is_finite() { continue; }
     for (l, r) in pairs.iter() {
         let (lu, ru) = (unit(l), unit(r));
         let conv = match DynamicTypeItem::convert(cfg, y, ru.clone(), lu.names[0].clone()) { Some((v, _)) => v, None => continue };
         let got = DynamicTypeItem(x, lu.clone()).calculate(cfg, true, &DynamicTypeItem(y, ru.clone()), op).expect("computed");
         let want = match k { 0 => x + conv, 1 => if conv == 0.0 { 0.0 } else { x / conv }, 2 => x * conv, _ => x - conv };
         if k == 1 { assert!(got.type_name() == "NUMBER"); } else { assert!(got.as_any().downcast_ref::<DynamicTypeItem>().expect("quantity").get_type().names[0] == lu.names[0]); }
-        if k != 2 { assert!((got.get_underlying_number() - want).abs() <= 1e-9 * (x.abs() + conv.abs() + want.abs()) || got.get_underlying_number() == want); }
-    }
+        if k != 2 { assert!((got.get_underlying_number() - want).abs() <= 1e-9 * (x.abs() + conv.abs() + want.abs()) || got.get_underlying_number() == want || !want.is_finite()); }
+    } }
 }
 #[cfg(kani)]
 pub fn m_replay_unit_calc() {}
@@ -127,10 +131,13 @@ pub fn m_replay_print_callers() {
     use crate::compiler::number::NumberItem;
     use crate::compiler::percent::PercentItem;
     use crate::formatter::format_number;
-    let x: f64 = vany();
-    vassume(x.is_finite());
+    let x0: f64 = vany();
+    vassume(x0.is_finite());
     let grids: [(u8, bool, bool, u8, bool, bool, bool, bool); 2] = [(3, false, true, 1, true, true, false, true), (0, true, true, 4, false, true, true, true)];
-    for g in grids.iter() {
+    // the solver's value, and next to it the binary-exact ties of 0..4 fraction digits (where a second rounding would show)
+    let t = if x0.abs() < 1e9 { x0.trunc() } else { 0.0 };
+    let xs = [x0, t + 0.5, t + 0.25, t + 0.125, t + 0.0625, t + 0.03125, -(t.abs() + 0.125)];
+    for x in xs.iter().copied() { for g in grids.iter() {
         let mut calc = crate::SmartCalc::default();
         calc.set_decimal_seperator("~".to_string());
         calc.set_thousand_separator("_".to_string());
@@ -154,7 +161,7 @@ pub fn m_replay_print_callers() {
             let f = fmt(o.0.unwrap_or(2), o.1.unwrap_or(true), o.2.unwrap_or(true));
             assert!(DynamicTypeItem(x, dt).print(cfg, &session) == alloc::format!("<{}> u {}", f, f));
         }
-    }
+    } }
 }
 #[cfg(kani)]
 pub fn m_replay_print_callers() {}
